@@ -531,8 +531,15 @@ class DataFormat(object):
         if self.format == FORMAT_DELIMITED:
             if self.line_delimiter is not None:
                 check_distinct(KEY_ESCAPE_CHARACTER, KEY_LINE_DELIMITER)
+            check_distinct(KEY_ESCAPE_CHARACTER, KEY_ITEM_DELIMITER)
             check_distinct(KEY_ITEM_DELIMITER, KEY_LINE_DELIMITER)
             check_distinct(KEY_ITEM_DELIMITER, KEY_QUOTE_CHARACTER)
+            if self.item_delimiter in ("\n", "\r"):
+                # Rows are always separated by line breaks, so an item delimiter that is one cannot be told apart.
+                raise errors.InterfaceError(
+                    "'%s' is %s but must not be a line break"
+                    % (KEY_ITEM_DELIMITER, _compat.text_repr(self.item_delimiter))
+                )
             check_distinct(KEY_LINE_DELIMITER, KEY_QUOTE_CHARACTER)
         self._is_valid = True
 
